@@ -413,6 +413,10 @@ func FileFlip(st *vfhelp.Stats, fl Flavor, bigPct int) func(t *rapid.T) {
 		}
 		partial := !fl.V1 && lay.Blocks >= 2 && b.sv.Total%uint64(BlockSize) != 0
 		nt := partial && (touched["block-crc"] || touched["tail-total"] || touched["tail-magic"])
+		if fl.V1 {
+			// V1 has no blocks: a flip in a payload of at least 64 KiB (detected at Close only)
+			nt = touched["v1-payload"] && len(b.payload) >= 64<<10
+		}
 		labels := []string{c.LenClass, fmt.Sprintf("compressed=%v", c.Compressed), fmt.Sprintf("blocks=%d", lay.Blocks)}
 		if partial {
 			labels = append(labels, ">=2blocks-partial-last")
@@ -716,6 +720,7 @@ func Stream(st *vfhelp.Stats, fl Flavor, bigPct int) func(t *rapid.T) {
 		}
 		var names []string
 		hitBoundary := false
+		removedBytes := false
 		for i := 0; i < np; i++ {
 			p := genStreamPerturbation(t, datas, concat, lay, i)
 			if p.name == "noop" {
@@ -731,12 +736,13 @@ func Stream(st *vfhelp.Stats, fl Flavor, bigPct int) func(t *rapid.T) {
 				if !uncovered(source, r) {
 					harmlessOnly = false
 				}
-				if r == "block-crc" || r == "tail-total" || r == "tail-magic" {
+				if r == "block-crc" || r == "tail-total" || r == "tail-magic" || r == "v1-payload" {
 					hitBoundary = true
 				}
 			}
 			if strings.HasPrefix(p.name, "cut") || strings.HasPrefix(p.name, "drop") {
 				hitBoundary = hitBoundary || lay.Blocks >= 2
+				removedBytes = true
 			}
 			switch {
 			case same:
@@ -776,6 +782,10 @@ func Stream(st *vfhelp.Stats, fl Flavor, bigPct int) func(t *rapid.T) {
 		}
 		partial := lay.Blocks >= 2 && (len(concat)-HeaderSize-TailSize)%(BlockSize+CRCSize) != 0
 		nt := partial && hitBoundary
+		if fl.V1 {
+			// V1 has no blocks: at least 3 pieces and a perturbation of the payload or of the piece list
+			nt = len(datas) >= 3 && (hitBoundary || removedBytes)
+		}
 		sort.Strings(names)
 		labels := []string{"source=" + source, c.LenClass, fmt.Sprintf("compressed=%v", c.Compressed), fmt.Sprintf("blocks=%d", lay.Blocks),
 			fmt.Sprintf("pieces<=%d", bucket(len(datas)))}
